@@ -433,11 +433,12 @@ def forwarded_parameter_obligations(model, rep, fn, pname, callees, clause, rule
     n = 0
     M = Matcher(fn)
     for c in calls_in(fn, include_nested=True):
-        if not isinstance(c.func, ast.Attribute) or c.func.attr not in callees:
+        cname = c.func.attr if isinstance(c.func, ast.Attribute) else (c.func.id if isinstance(c.func, ast.Name) else None)
+        if cname is None or cname not in callees:
             continue
         n += 1
         rep.instance(rule, fn.loc(c))
-        pos = callees[c.func.attr]
+        pos = callees[cname]
         v = kwarg(c, pname)
         if v is None and isinstance(pos, (set, frozenset, list, tuple)):
             # several callees of that name, the parameter at different positions: the slot whose argument derives from the parameter, else the first one given
@@ -462,8 +463,8 @@ def forwarded_parameter_obligations(model, rep, fn, pname, callees, clause, rule
             if pname not in names and not any(pname.lstrip("_") in nm for nm in names):
                 ok = False
                 det = f"`{norm_src(c)[:90]}` passes `{norm_src(v)}`, which does not derive from the parameter `{pname}`"
-        rep.ob(rule, fn.anchor, f"the requested `{pname}` reaches `{c.func.attr}(...)`", ok, det, node=c, fn=fn, clause=clause,
-               stmt=f"{pname} -> {c.func.attr} in {fn.name}")
+        rep.ob(rule, fn.anchor, f"the requested `{pname}` reaches `{cname}(...)`", ok, det, node=c, fn=fn, clause=clause,
+               stmt=f"{pname} -> {cname} in {fn.name}")
     return n
 
 
@@ -711,4 +712,37 @@ def with_params_forwarding_obligations(model, rep, clause, only, rule="WPARAM"):
             rep.ob(rule, fn.anchor, "with_params hands every option it names to the parametrised model under the same name", not missing and not wrong,
                    (f"`{norm_src(c)[:80]}` does not pass {missing}: models built through with_params ignore the option" if missing else
                     f"{wrong} is passed a value that does not derive from the parameter of that name"), node=c, fn=fn, clause=clause)
+    return n
+
+
+# ----------------------------------------------------------------------------------------------------------------------------------------------------------
+# NARROW - an index is not narrowed to 8 / 16 bits
+
+
+def narrow_index_obligations(model, rep, fns, clause, rule="NARROW"):
+    """The result of an arg-max over candidates (templates x rotations: a user-chosen, unbounded number) is an index.  Casting it to an 8- or 16-bit integer wraps
+    around as soon as there are more than 256 / 65536 candidates and silently reports candidate i mod 256.  Every arg-max site is an instance; a narrowing `astype`
+    on a value that contains the arg-max is refuted."""
+    NARROW = {"np.uint8", "np.int8", "np.uint16", "np.int16", "'uint8'", "'int8'", "'uint16'", "'int16'", "'u1'", "'i1'", "'u2'", "'i2'", "np.ubyte", "np.byte"}
+    n = 0
+    for fn in fns:
+        M = Matcher(fn)
+        sites = [c for c in ast.walk(fn.node) if isinstance(c, ast.Call) and (dotted(c.func) or "").rsplit(".", 1)[-1] in ("argmax", "argmin")]
+        if not sites:
+            continue
+        casts = [c for c in ast.walk(fn.node) if isinstance(c, ast.Call) and isinstance(c.func, ast.Attribute) and c.func.attr == "astype" and c.args and
+                 norm_src(c.args[0]) in NARROW]
+        casts += [c for c in ast.walk(fn.node) if isinstance(c, ast.Call) and (dotted(c.func) or "") in {x for x in NARROW if x.startswith("np.")} and c.args]
+        bad = []
+        for c in casts:
+            recv = c.func.value if isinstance(c.func, ast.Attribute) and c.func.attr == "astype" else c.args[0]
+            ex = M.expr(recv)
+            if any(isinstance(x, ast.Call) and (dotted(x.func) or "").rsplit(".", 1)[-1] in ("argmax", "argmin") for x in ast.walk(ex)):
+                bad.append(c)
+        for s_ in sites:
+            n += 1
+            rep.instance(rule, fn.loc(s_))
+        rep.ob(rule, fn.anchor, "a candidate index (arg-max) keeps a full-width integer type", not bad,
+               f"`{norm_src(bad[0])[:70]}` narrows the arg-max: with more than 256 candidates the reported index wraps around" if bad else "",
+               node=(bad[0] if bad else fn.node), fn=fn, clause=clause, stmt=(None if bad else f"def {fn.name} index width"))
     return n
